@@ -206,7 +206,11 @@ func RunParent(cfg ParentConfig) int {
 	}
 	if code == 0 && len(m.Inconcl) > 0 {
 		code = 3
-		for _, r := range m.Inconcl {
+		for i, r := range m.Inconcl {
+			if i >= 3 {
+				fmt.Printf("INCONCLUSIVE property=%s reason=(%d more)\n", cfg.Property, len(m.Inconcl)-i)
+				break
+			}
 			fmt.Printf("INCONCLUSIVE property=%s reason=%s\n", cfg.Property, oneLine(r))
 		}
 	}
